@@ -113,6 +113,16 @@ template<class T> static void inv_one(const char* tn, int ifw, int ibk, int nfw,
 static int run_inverse(const char* file, uint64_t seed, int n){ FILE* f=fopen(file,"r"); if(!f) return 3; int a,b,nf,pa,pc,sq,lin,role[2];
   while(fscanf(f,"%%d %%d %%d %%d %%d %%d %%d %%d %%d",&a,&b,&nf,&pa,&pc,&sq,&lin,&role[0],&role[1])==9){ inv_one<float>("f",a,b,nf,pa,pc,sq,lin,role,seed,n); inv_one<double>("d",a,b,nf,pa,pc,sq,lin,role,seed,n); inv_one<long double>("l",a,b,nf,pa,pc,sq,lin,role,seed,n); } fclose(f); return 0; }
 
+// opnative file line: id opcode(0 + 1 - 2 * 3 /) : every operator instance equals, bit for bit, the native operation on the stored values
+template<class T> static void opnative_one(const char* tn, int id, int opc, uint64_t seed, int n){
+  auto it = table<T>().find(id); if(it==table<T>().end()) return; const Info* inf = info_of(id); std::mt19937_64 g(seed*7+id); std::uniform_real_distribution<double> U(1.0,2.0);
+  long diff=0, cnt=0; long double wa=0, wb=0;
+  for(int t=0;t<n;t++){ T x[96]={0}; for(int a=0;a<2;a++) for(int c=0;c<inf->asz[a];c++){ T v=(T)std::ldexp(U(g),(int)(g()%%30)-15)*((g()&1)?1:-1); if(sizeof(T)>8) v+=(T)std::ldexp((long double)(g()&1023), -70); x[a*9+c]=v; }
+    T o[16]; int no=it->second(x,o); for(int c=0;c<no;c++){ T a=x[inf->asz[0]==1? 0 : c], b=x[9+(inf->asz[1]==1? 0 : c)]; T w = opc==0? a+b : opc==1? a-b : opc==2? a*b : a/b; cnt++;
+      if(std::memcmp(&o[c],&w, sizeof(T)>10? 10 : sizeof(T))!=0 && !(o[c]!=o[c] && w!=w)){ if(!diff){ wa=(long double)a; wb=(long double)b; } diff++; } } }
+  printf("{\"e\":\"OpNative\",\"id\":%%d,\"num\":\"%%s\",\"n\":%%ld,\"diff\":%%ld,\"wa\":\"%%La\",\"wb\":\"%%La\"}\n", id, tn, cnt, diff, wa, wb);
+}
+static int run_opnative(const char* file, uint64_t seed, int n){ FILE* f=fopen(file,"r"); if(!f) return 3; int id,opc; while(fscanf(f,"%%d %%d",&id,&opc)==2){ opnative_one<float>("f",id,opc,seed,n); opnative_one<double>("d",id,opc,seed,n); opnative_one<long double>("l",id,opc,seed,n); } fclose(f); return 0; }
 // mono file line: id nargs c2num c2den neg deg2...   reference c * prod x^(deg/2) in __float128 (all-scalar monomial relations)
 #include <quadmath.h>
 template<class T> static void mono_one(const char* tn, int id, int nargs, long c2n, long c2d, int neg, const int* deg2, uint64_t seed, int n){
@@ -154,6 +164,7 @@ int main(int argc, char** argv){
   if(mode=="equiv") return run_equiv(argv[2], strtoull(argv[3],0,10), atoi(argv[4]));
   if(mode=="twin") return run_twin(argv[2], strtoull(argv[3],0,10), atoi(argv[4]));
   if(mode=="inverse") return run_inverse(argv[2], strtoull(argv[3],0,10), atoi(argv[4]));
+  if(mode=="opnative") return run_opnative(argv[2], strtoull(argv[3],0,10), atoi(argv[4]));
   if(mode=="mono") return run_mono(argv[2], strtoull(argv[3],0,10), atoi(argv[4]));
   if(mode=="tdef") return run_tdef(argv[2], strtoull(argv[3],0,10), atoi(argv[4]));
   setvbuf(stdout, NULL, _IOLBF, 0);
